@@ -25,7 +25,7 @@ RULE = (
     "first period (end state, events, order, identical rates), and the EventQueue object may have "
     "been queried for a late period before it was filled. Second use: after run() returned, the same "
     "sessions shifted behind the end are added to the queue and run() is called again - the result "
-    "must equal one run over both batches. Non-trivial = two sessions share a "
+    "must equal one run over both batches; in a quarter of the scenarios the vacated network object serves a second simulation (fresh EVs, queue, scheduler) that must repeat the first. Non-trivial = two sessions share a "
     "station or two events share a period."
 )
 ASSUMPTIONS = [
@@ -118,6 +118,8 @@ def prop(spec, rec):
         check_json_built(spec, m, R, labels)
     if spec.get("second_batch"):
         check_second_run(spec, m, labels)
+    if spec.get("reuse_network"):
+        check_network_reused(spec, h, m, labels)
     if spec.get("queue_preused"):
         labels.add("queue_object_used_before")
     if exact:
@@ -169,6 +171,30 @@ def check_second_run(spec, m, labels):
     labels.add("second_run_on_same_simulator")
 
 
+def check_network_reused(spec, h, m, labels):
+    """The site (one ChargingNetwork object, now vacated) serves a second simulation of the same
+    sessions with fresh EV objects, queue, scheduler and simulator: same result as the first."""
+    from acnportal.acnsim import Simulator
+
+    net = h.net
+    net.updates, net.trace, net.pilot_trace = 0, {}, {}
+    evs = {s["id"]: sc.build_ev(s) for s in spec["sessions"]}
+    q = sc.build_events(dict(spec, queue_preused=None), evs)
+    sched = sc.make_scheduler(spec)
+    sim2 = Simulator(net, sched, q, sc.parse_start(spec), period=spec["period"], store_schedule_history=bool(spec.get("store_history")), verbose=False)
+    h2 = sc.Handle(spec, sim2, net, evs, sched)
+    h2.evses = h.evses
+    sc.run_sim(h2)
+    require(sim2.iteration == m.end and sim2.event_queue.empty(), "network_reused_run_ends", lambda: "second simulation on the same network: iteration %r, model end %r" % (sim2.iteration, m.end))
+    for name in ("pilot_signals", "charging_rates"):
+        a, b = getattr(h.sim, name), getattr(sim2, name)
+        require(a.shape == b.shape and np.array_equal(a, b), "network_reused_differs", lambda: "%s of a second simulation on the same (vacated) network object differ from the first:\n%r\n%r" % (name, b, a))
+    for t in range(m.end):
+        for sid in m.station_ids:
+            require(net.trace[t][sid] == m.occupant(sid, t), "network_reused_occupancy", lambda: "second simulation: period %d station %s holds %r" % (t, sid, net.trace[t][sid]))
+    labels.add("network_object_reused")
+
+
 def check_json_built(spec, m, R, labels):
     import warnings
 
@@ -206,6 +232,7 @@ def cases(draw):
     # a quarter of the scenarios are also continued with a second batch of events
     if spec["scheduler"]["kind"] in ("scripted", "uncontrolled") and not spec["scheduler"].get("always_max"):
         spec["second_batch"] = draw(st.sampled_from([None, None, None, 1, 3]))
+    spec["reuse_network"] = draw(st.integers(0, 3)) == 0
     return spec
 
 
@@ -217,7 +244,7 @@ def subchecks(tier):
             prop,
             quick=500,
             thorough=40000,
-            floors={"second_run_on_same_simulator": 0.08, "json_built_run": 0.45, "back_to_back": 0.2, "simultaneous_different_types": 0.3, "exact_family": 0.04, "recompute_after_last_departure": 0.05, "mr_None": 0.1},
+            floors={"second_run_on_same_simulator": 0.08, "json_built_run": 0.45, "back_to_back": 0.2, "simultaneous_different_types": 0.3, "exact_family": 0.04, "network_object_reused": 0.1, "recompute_after_last_departure": 0.05, "mr_None": 0.1},
         )
     ]
 
